@@ -147,9 +147,16 @@ BinInfoOK(P, B) ==
     /\ B.out.assembling = 0 /\ Len(B.out.writing) = 0 /\ ~B.out.resolved
     /\ (shown = "help" => B.out.ansi = P.colors)
 
+\* the colour of a rejected command line's diagnostics: its last well-formed --color option
+RejectColors(argv) ==
+    LET cs == ArgsOf(argv, "color")
+        good == {i \in 1..Len(cs) : cs[i].v \in {"on", "off"}} IN
+    IF good = {} THEN DefaultColors ELSE cs[CHOOSE i \in good : \A j \in good : j <= i].v = "on"
+
 BinRejectedOK(B) ==
     /\ B.code # 0 /\ B.errors >= 1 /\ Len(B.created) = 0
     /\ ~B.out.usage /\ ~B.out.url /\ B.out.assembling = 0 /\ Len(B.out.writing) = 0
+    /\ B.err_ansi = RejectColors(B.argv)
 
 TBin ==
     /\ Is("bin")
